@@ -17,7 +17,8 @@ EXPLANATION = (
     "C19.4 the unchecked sub_ts_dur (plain `-`, `as u64`) is called only from MonotonicInstant::elapsed (both operands from the monotonic clock) and duration_since_unix_time (right operand the zero constant), and MonotonicInstant's field is not public; "
     "C19.5 ordering agrees with subtraction: TimeSpec derives Ord over (tv_sec, tv_nsec) in that field order and the wrappers derive Ord on their single field; "
     "C19.6 thread::sleep returns Ok only after nanosleep returned Ok, retries only on EINTR, and the remainder pointer is the request itself (the retry sleeps the remaining time); "
-    "C19.7 monotonic readings come from CLOCK_MONOTONIC on both the vDSO and the syscall path (shared with C07.8). "
+    "C19.7 monotonic readings come from CLOCK_MONOTONIC on both the vDSO and the syscall path (shared with C07.8), and every now() of Instant/MonotonicInstant reads that one clock (SystemTime: CLOCK_REALTIME); "
+    "C19.8 every public operation of Instant and SystemTime (+ Duration, - Duration, - Self, duration_since, elapsed) reaches its own arithmetic helper with its operands in order (self first; now before self for elapsed) and wraps the result in its own type. "
     "NOT decided: the exactness identities ((t+d)-d = t, ...) as numerical facts, the kernel clock's monotonicity, the wall-clock lower bound of sleep.")
 ASSUMPTIONS = ["inputs are normalised (0 <= nanoseconds < 10^9), as the property states", "the monotonic clock is non-negative"]
 
@@ -264,6 +265,78 @@ def run_one(ck, prog):
             fl = [f["ty"] for v in a["variants"] for f in v["fields"]]
             ords = [i for i in prog.impls if i["self"] == T + w and i.get("trait") == "core::cmp::Ord"]
             ck.ob("C19.5", f"{w}|single-field-ord", len(fl) == 1 and fl[0].endswith("TimeSpec") and len(ords) == 1, detail=f"{w} must order by its single TimeSpec field (fields {fl})")
+
+    # ---- C19.8 each public operation reaches its own arithmetic, operands in order ------------------------------------------------------------
+    HELPERS = ("checked_add_dur", "checked_sub_dur", "sub_ts_checked_dur", "sub_ts_dur")
+
+    def describe(e, ctx):
+        e = strip_casts(e)
+        n = 0
+        while isinstance(e, tuple) and e and n < 8:
+            if e[0] == "field" and e[2] in ("0", 0):
+                e = strip_casts(e[1])
+            elif e[0] in ("ref", "addr"):
+                e = strip_casts(e[2])
+            elif e[0] == "deref":
+                e = strip_casts(e[1])
+            elif e[0] == "call" and (e[1] or "").endswith(("Clone::clone", "AsRef::as_ref")) and e[2]:
+                e = strip_casts(e[2][0])
+            else:
+                break
+            n += 1
+        if isinstance(e, tuple) and e and e[0] == "param":
+            return ("param", e[1])
+        if isinstance(e, tuple) and e and e[0] == "call" and (e[1] or "").endswith("::now"):
+            return ("now",)
+        if isinstance(e, tuple) and e and e[0] == "const" and e[2] and "UNIX_TIME" in e[2]:
+            return ("epoch",)
+        return ("other", show(e)[:60])
+
+    def operation(fn, depth=0):
+        """(helper, operand descriptors in terms of fn's own parameters) or None when it is not exactly one"""
+        ctx = prog.ctx(fn)
+        found = []
+        for bb, t in ctx.cfg.calls():
+            c = t.get("resolved") or t.get("callee") or ""
+            if c.startswith("<" + T):
+                nm = c
+            elif c.startswith(T):
+                nm = c[len(T):]
+            else:
+                continue
+            if nm.endswith("::now") or nm.startswith("get_"):
+                continue
+            a = [describe(x, ctx) for x in ctx.args(bb)]
+            if nm in HELPERS:
+                found.append((nm, a))
+            elif c in prog.fns and depth < 3:
+                inner = operation(prog.fns[c], depth + 1)
+                if inner is not None:
+                    found.append((inner[0], [a[d[1] - 1] if d[0] == "param" and 0 < d[1] <= len(a) else d for d in inner[1]]))
+        return found[0] if len(found) == 1 else None
+
+    OPS = (("Add<core::time::Duration>>::add", "checked_add_dur", [("param", 1), ("param", 2)]),
+           ("Sub<core::time::Duration>>::sub", "checked_sub_dur", [("param", 1), ("param", 2)]),
+           ("arith::Sub>::sub", "sub_ts_checked_dur", [("param", 1), ("param", 2)]),
+           ("::duration_since", "sub_ts_checked_dur", [("param", 1), ("param", 2)]),
+           ("::elapsed", "sub_ts_checked_dur", [("now",), ("param", 1)]))
+    n_ops = 0
+    for w in ("Instant", "SystemTime"):
+        for p2, f2 in prog.fns.items():
+            if not (p2.startswith(f"<{T}{w} as ") or p2.startswith(f"{T}{w}::")):
+                continue
+            for suffix, helper, want in OPS:
+                if p2.endswith(suffix):
+                    n_ops += 1
+                    got = operation(f2)
+                    ck.ob("C19.8", f"{w}|{suffix.strip(':')}|reaches-its-arithmetic", got is not None and got[0] == helper and got[1] == want, fn=p2,
+                          detail=f"must compute {helper}{tuple(want)}; found {got}")
+                    if suffix.endswith(("::add", "Duration>>::sub")):
+                        c2 = prog.ctx(f2)
+                        wraps = [x for bb, t in c2.cfg.calls(lambda t: (t.get("callee") or "").endswith("Option::<T>::map")) for x in c2.args(bb)[1:]]
+                        ok = any(T + w in show(x) for x in wraps) or any(s["k"] == "assign" and s["rv"]["k"] == "agg" and str(s["rv"].get("adt", "")).endswith(T + w) for b in f2["blocks"] for s in b["stmts"])
+                        ck.ob("C19.8", f"{w}|{suffix.strip(':')}|result-of-the-same-kind", ok, fn=p2, detail=f"the result must be wrapped as {w}")
+    ck.floor("C19.8", "public time operations", n_ops, 10)
 
     # ---- C19.6 sleep ----------------------------------------------------------------------------------------------------------------------------
     sl = prog.fns.get("tiny_std::thread::sleep")
